@@ -226,6 +226,9 @@ def run_check(prop, tier, seed, runs=None, workers=None, wall_cap=None):
     if not executed:
         print("HARNESS-ERROR no run executed")
         return 2
+    if not coverage.get("productive_results_judged"):
+        print("HARNESS-ERROR %d runs executed but no result of the code under test was judged (every op ended in an exception?)" % len(executed))
+        return 2
     if len(rejected) > 0.05 * max(1, len(primary)) and len(rejected) > 3:
         print("HARNESS-ERROR %d of %d generated items were rejected by the admission self-check" % (len(rejected), len(primary)))
         for r in rejected[:3]:
